@@ -8,7 +8,8 @@ From PV.Series Require Import MultiIndex Cauchy Lift Inst ExecIdx Exec SylvInst.
 From PV.Block Require Import Mat Masks CoefAlg BlockSel ExecScalar QLemmas QInst.
 From PV.DSL Require Import Syntax Sem.
 From PV.Gen Require Import Algorithms_gen.
-From PV.Alg Require Import NonHerm SemExec SemExecSound Trunc TruncMain TruncTie.
+From PV.Alg Require Import NonHerm SemExec SemExecSound Trunc TruncMain TruncTie GqInv.
+Require Import Ncring_tac.
 Open Scope string_scope.
 
 Section TieNH.
@@ -73,5 +74,118 @@ Proof.
     exact nh_trunc_solution. all: first [exact nsylv_P_t | exact nsylv_ord_t].
   - eapply (@nh_gauge TT _ _ _ _ _ _ (teq M) (trunc_ops M) (Rgt M) (BAt M hst)).
     exact nh_trunc_solution. all: first [exact nsylv_P_t | exact nsylv_ord_t].
+Qed.
+
+(** ** the similarity clauses, inside the class where they hold: every kept matrix element connects
+    equal unperturbed energies ([central_ok]; outside it the property is false on the unchanged
+    code - known finding C05-kept-distinct-energies) *)
+Definition central_ok : bool :=
+  forallb (fun p => forallb (fun q => implb (keep p q) (gq_eqb (Ef p) (Ef q))) (range D)) (range D).
+Definition nh_inputs_ok : bool :=
+  refl_ok D bl msk && distinct_ok D bl msk El && central_ok && zero_ok D k N bl msk cb El sols.
+
+Hypothesis Hin : nh_inputs_ok = true.
+
+Lemma nh_parts : refl_ok D bl msk = true /\ distinct_ok D bl msk El = true /\ central_ok = true /\ zero_ok D k N bl msk cb El sols = true.
+Proof.
+  pose proof Hin as H. unfold nh_inputs_ok in H.
+  apply andb_prop in H. destruct H as [H H4]. apply andb_prop in H. destruct H as [H H3].
+  apply andb_prop in H. destruct H as [H1 H2]. repeat split; assumption.
+Qed.
+Lemma n_keep_refl : forall p, (p < D)%nat -> keep p p = true.
+Proof.
+  destruct nh_parts as (H & _). unfold refl_ok in H. rewrite forallb_forall in H.
+  intros p Hp. apply H. apply in_range. exact Hp.
+Qed.
+Lemma n_distinct : forall p q, (p < D)%nat -> (q < D)%nat -> keep p q = false -> ~ (Ef p - Ef q == 0).
+Proof.
+  destruct nh_parts as (_ & H & _). unfold distinct_ok in H. rewrite forallb_forall in H.
+  intros p q Hp Hq Hk E.
+  specialize (H p (proj2 (in_range D p) Hp)). rewrite forallb_forall in H.
+  specialize (H q (proj2 (in_range D q) Hq)). fold keep in H. rewrite Hk in H. cbn [negb implb] in H.
+  assert (E' : gq_eq (gq_sub (Ef p) (Ef q)) gq0) by exact E.
+  rewrite (gq_eqb_complete _ _ E') in H. discriminate.
+Qed.
+Lemma n_kept_equal : forall p q, (p < D)%nat -> (q < D)%nat -> keep p q = true -> Ef p == Ef q.
+Proof.
+  destruct nh_parts as (_ & _ & H & _). unfold central_ok in H. rewrite forallb_forall in H.
+  intros p q Hp Hq Hk.
+  specialize (H p (proj2 (in_range D p) Hp)). rewrite forallb_forall in H.
+  specialize (H q (proj2 (in_range D q) Hq)). rewrite Hk in H. cbn [implb] in H.
+  apply gq_eqb_sound. exact H.
+Qed.
+Lemma n_H_zero : eqN D k N (Zc (sol "H")) (SylvInst.H0 D k Ef).
+Proof.
+  destruct nh_parts as (_ & _ & _ & H). unfold zero_ok in H.
+  apply teqb_sound in H.
+  eapply (eqN_trans (Rg := gq_Ring)); [apply (eqN_sym (Rg := gq_Ring)); apply (tZc_den (Rg := gq_Ring) blk keep cm ksym kblk cblk)|].
+  eapply (eqN_trans (Rg := gq_Ring)); [exact H|]. apply den_tab.
+Qed.
+Lemma n_inv_spec : forall p q, (p < D)%nat -> (q < D)%nat -> keep p q = false ->
+  (Ef p - Ef q) * gq_inv0 (Ef p - Ef q) == 1.
+Proof. intros p q Hp Hq Hk. apply GqInv.gq_inv0_spec. exact (n_distinct p q Hp Hq Hk). Qed.
+Lemma n_Sel_H0 : Sel (SylvInst.H0 D k Ef) == SylvInst.H0 D k Ef.
+Proof.
+  intros n _ p q Hp Hq.
+  change (Sel (SylvInst.H0 D k Ef) n p q) with (if keep p q then SylvInst.H0 D k Ef n p q else 0).
+  unfold SylvInst.H0.
+  destruct (is_zero n).
+  - unfold mdiag. destruct (Nat.eqb_spec p q).
+    + subst. rewrite (n_keep_refl q Hq). reflexivity.
+    + destruct (keep p q); reflexivity.
+  - destruct (keep p q); reflexivity.
+Qed.
+Lemma n_central (x : TT) : AlgLemmas.comm (SylvInst.H0 D k Ef) (Sel x) == 0.
+Proof.
+  intros n Hn p q Hp Hq. unfold AlgLemmas.comm. rewrite (SylvInst.comm_H0_entry (k := k) Ef (Sel x) n Hp Hq).
+  change (Sel x n p q) with (if keep p q then x n p q else 0).
+  destruct (keep p q) eqn:K.
+  - rewrite (n_kept_equal p q Hp Hq K). change ((0 : TT) n p q) with (0 : gq). non_commutative_ring.
+  - change ((0 : TT) n p q) with (0 : gq). non_commutative_ring.
+Qed.
+
+Local Notation H0c := (SylvInst.H0 D k Ef).
+Local Notation tz := (proj2 (teq_eqN D k N bl msk cb _ _) n_H_zero).
+
+Lemma t_kept : teq M (Sel (Zc (sol "H"))) (Zc (sol "H")).
+Proof.
+  apply (teq_trans M _ (Sel H0c)). { apply (teq_Sel M). exact tz. }
+  apply (teq_trans M _ H0c). { apply lift_teq. exact n_Sel_H0. } apply (teq_sym M). exact tz.
+Qed.
+Lemma t_Sel_ad : forall x, teq M (Sel (AlgLemmas.comm (Zc (sol "H")) x)) (AlgLemmas.comm (Zc (sol "H")) (Sel x)).
+Proof.
+  intros x.
+  apply (teq_trans M _ (Sel (AlgLemmas.comm H0c x))).
+  { apply (teq_Sel M). apply (teq_comm M). exact tz. apply (teq_refl M). }
+  apply (teq_trans M _ (AlgLemmas.comm H0c (Sel x))).
+  { apply lift_teq. apply (SylvInst.Sel_comm_H0 (k := k) blk keep cm ksym kblk cblk Ef). }
+  apply (teq_comm M). apply (teq_sym M). exact tz. apply (teq_refl M).
+Qed.
+Lemma t_spec : forall y, teq M (Rp (AlgLemmas.comm (Zc (sol "H")) (nsylv fen y))) (Rp y).
+Proof.
+  intros y.
+  apply (teq_trans M _ (Rp (AlgLemmas.comm H0c (nsylv fen y)))).
+  { apply (teq_Rp M). apply (teq_comm M). exact tz. apply (teq_refl M). }
+  apply lift_teq. unfold nsylv. cbn [afenv].
+  apply (SylvInst.sylv_spec (k := k) blk keep cm ksym kblk cblk Ef gq_inv0 n_inv_spec).
+Qed.
+Lemma t_central : forall x, teq M (AlgLemmas.comm (Zc (sol "H")) (Sel x)) 0.
+Proof.
+  intros x. apply (teq_trans M _ (AlgLemmas.comm H0c (Sel x))).
+  { apply (teq_comm M). exact tz. apply (teq_refl M). }
+  apply lift_teq. apply n_central.
+Qed.
+
+Theorem nh_tie_similarity :
+  eqN D k N (Sel (sol "U†" * sol "H" * sol "U")) (sol "H_tilde") /\
+  eqN D k N (Rp (sol "U†" * sol "H" * sol "U")) 0.
+Proof.
+  refine (Logic.conj _ _); apply (teq_eqN D k N bl msk cb).
+  - eapply (@nh_kept_partial TT _ _ _ _ _ _ (teq M) (trunc_ops M) (Rgt M) (BAt M hst)).
+    exact nh_trunc_solution.
+    all: first [exact nsylv_P_t | exact nsylv_ord_t | exact t_kept | exact t_Sel_ad | exact t_spec | exact t_central].
+  - eapply (@nh_eliminated_partial TT _ _ _ _ _ _ (teq M) (trunc_ops M) (Rgt M) (BAt M hst)).
+    exact nh_trunc_solution.
+    all: first [exact nsylv_P_t | exact nsylv_ord_t | exact t_kept | exact t_Sel_ad | exact t_spec | exact t_central].
 Qed.
 End TieNH.
